@@ -198,6 +198,8 @@ def run(run):
                     run.violation("%s with cuts %s / %s (%s): %s, pandas: %s" % (gname, x, y, kinds, _short(gc_), _short(pc)), case, finding=classify_pair(gname, kinds, None))
     run.section("partitionings", cases=ncase, single_input_families=len(F), two_input_families=len(G), layouts_per_family=len(lay), cuts_enumerated="all 2^(n-1), n=%d" % n)
     run.sample({"family": "groupby-agg", "layout": "cuts[1, 4] unknown divisions"})
+    import align_layer
+    align_layer.align_layer(run, rt, quick)
     progcheck.run_programs(run, {"C02"}, 150 if quick else 4000, profile="l1", own={"C02"}, with_steps=False)
     progcheck.run_programs(run, {"C02"}, 100 if quick else 3000, profile="l2", own={"C02"}, with_steps=False)
 
